@@ -17,7 +17,7 @@ from concurrent.futures import Executor, Future, ThreadPoolExecutor, ProcessPool
 import numpy as np
 
 from vf.oracles import sigdef as S
-from vf.oracles.fasta import write_fasta
+from vf.oracles.fasta import write_fasta, soft_mask
 
 LEVEL = 'exploration'
 RULE = ('cases = (file list, execution mode, worker count, completion order); every permutation of completion order is forced for '
@@ -54,6 +54,7 @@ def shards(tier, seed):
 			out.append(dict(name=f'pool-{mode}-{j}', kind='pool', mode=mode, sub=j, runs=8 if tier == 'quick' else 14))
 	for j in range(2 if tier == 'quick' else 8):
 		out.append(dict(name=f'threads-yield-{j}', kind='pool', mode='threads', sub=100 + j, runs=6 if tier == 'quick' else 14, yield_injection=True))
+	out.append(dict(name='relative-paths-after-chdir', kind='chdir', runs=2 if tier == 'quick' else 8))
 	out.append(dict(name='fail', kind='fail', nmax=4 if tier == 'quick' else 6))
 	out.append(dict(name='cli-create', kind='cli', runs=5 if tier == 'quick' else 25))
 	return out
@@ -76,7 +77,7 @@ def make_files(ctx, rng, n, skew=False, tag='f', spec=None):
 				# big file: short random part + long prefix-free padding (keeps signatures distinct, parsing slow)
 				contigs = [bytes(rng.choice(b'ACGT') for _ in range(rng.randint(60, 300))) + b'C' * ln]
 			else:
-				contigs = [bytes(rng.choice(b'ACGT') for _ in range(ln)) for _ in range(rng.choice([1, 2]))]
+				contigs = [soft_mask(bytes(rng.choice(b'ACGT') for _ in range(ln))) for _ in range(rng.choice([1, 2]))]
 			exp = S.signature(*(spec or (K, PREFIX)), contigs)
 			if exp and tuple(exp) not in seen:
 				seen.add(tuple(exp))
@@ -433,6 +434,86 @@ def _run_pool(sh, ctx, gc, KmerSpec):
 		rec.restore()
 
 
+CHDIR_CHILD = r"""
+import os, sys, json
+import gambit.seq, gambit.sigs.calc as gc           # imported while the working directory is the FIRST one
+from gambit.seq import SequenceFile
+from gambit.kmers import KmerSpec
+from concurrent.futures import ProcessPoolExecutor, ThreadPoolExecutor
+spec = json.loads(sys.argv[1])
+os.chdir(spec['second'])
+ks = KmerSpec(spec['k'], spec['prefix'])
+out = {}
+for mode in spec['modes']:
+	files = [SequenceFile(n, 'fasta', 'auto') for n in spec['names']]
+	try:
+		if mode == 'process-executor':
+			with ProcessPoolExecutor(3) as ex:
+				res = gc.calc_file_signatures(ks, files, concurrency='processes', executor=ex)
+		elif mode == 'thread-executor':
+			with ThreadPoolExecutor(3) as ex:
+				res = gc.calc_file_signatures(ks, files, concurrency='threads', executor=ex)
+		else:
+			res = gc.calc_file_signatures(ks, files, concurrency=None if mode == 'none' else mode, max_workers=spec['workers'])
+		out[mode] = dict(sigs=[[int(x) for x in s_] for s_ in res])
+	except Exception as e:
+		out[mode] = dict(error=f'{type(e).__name__}: {e}')
+print('RESULT ' + json.dumps(out))
+"""
+
+
+def run_chdir(sh, ctx):
+	"""Files named by RELATIVE paths, the working directory changed after the library was imported (a pipeline that enters its run
+	directory), and files with the same relative names and other content in the directory the process started in: every execution
+	mode reads the files the names denote NOW, like the single-file call does. One child process per run (the import-time working
+	directory is a property of a process)."""
+	import json, subprocess
+	from vf import core
+	rng = random.Random(f'C13-chdir-{ctx.seed}')
+	for r in range(sh['runs']):
+		first, second = ctx.workdir / f'c{r}_first', ctx.workdir / f'c{r}_second'
+		n = rng.choice([3, 5, 9])
+		spec = SPECS[r % len(SPECS)]
+		names, exps = [], []
+		for i in range(n):
+			nm = f'g{i}.fa' if i % 3 else f'sub/g{i}.fa'
+			for base, keep in ((second, True), (first, False)):
+				if not keep and r % 2 and i % 2:
+					continue                # odd runs: some names exist only in the second directory
+				(base / nm).parent.mkdir(parents=True, exist_ok=True)
+				while True:
+					contigs = [bytes(rng.choice(b'ACGT') for _ in range(rng.randint(200, 500)))]
+					e = S.signature(spec[0], spec[1], contigs)
+					if e and e not in exps:
+						break
+				write_fasta(base / nm, contigs)
+				if keep:
+					exps.append(e)
+			names.append(nm)
+		modes = ['none', 'threads', 'processes', 'process-executor', 'thread-executor']
+		arg = dict(second=str(second), k=spec[0], prefix=spec[1].decode(), names=names, modes=modes, workers=rng.choice([1, 2, 4, None]))
+		try:
+			pr = subprocess.run(['/venv/bin/python', '-c', CHDIR_CHILD, json.dumps(arg)], cwd=str(first), env=core.worker_env(), capture_output=True, timeout=900)
+		except subprocess.TimeoutExpired:
+			ctx.inconc('relative-paths child process did not finish within 900 s')
+			continue
+		line = [l for l in pr.stdout.decode('utf8', 'replace').splitlines() if l.startswith('RESULT ')]
+		if not line:
+			ctx.inconc(f'relative-paths child process gave no result: rc={pr.returncode} {pr.stderr.decode("utf8", "replace")[-300:]}')
+			continue
+		out = json.loads(line[-1][7:])
+		for mode in modes:
+			w = dict(n=n, mode=mode, names=names, started_in='a directory holding other files under the same relative names' if not r % 2 else 'a directory holding other files under SOME of the names',
+			         kmerspec=f'{spec[0]}/{spec[1].decode()}', max_workers=arg['workers'])
+			ctx.case(('chdir', r, mode), nontrivial=True, sample=w if r == 0 and mode == 'processes' else None)
+			ctx.count(f'relative_paths_after_chdir:{mode}')
+			o = out.get(mode, {})
+			if 'error' in o:
+				ctx.violation('raises-on-good-files', f'{mode}: relative paths after os.chdir: raised {o["error"]}', w)
+				continue
+			check_result(ctx, [np.array(x, dtype='u8') for x in o['sigs']], exps, w, f'relative paths after chdir, {mode}')
+
+
 # ---- failures ---------------------------------------------------------------------------------------
 
 def bad_file(ctx, kind, tag):
@@ -586,13 +667,13 @@ def run_cli(sh, ctx):
 def run_shard(sh, ctx):
 	if sh['kind'] == 'cli':
 		return run_cli(sh, ctx)
-	{'perm': run_perm, 'alldone': run_perm, 'pool': run_pool, 'fail': run_fail}[sh['kind']](sh, ctx)
+	{'perm': run_perm, 'alldone': run_perm, 'pool': run_pool, 'fail': run_fail, 'chdir': run_chdir}[sh['kind']](sh, ctx)
 
 
 def finalize(merged, tier, seed, inconclusive):
 	c = merged['counters']
 	for n in ['forced_runs', 'orders_delivered_exactly_as_chosen', 'non_identity_orders_delivered', 'pool_runs:none', 'pool_runs:threads', 'pool_runs:processes',
-	          'failures_propagated', 'caller_executor_still_usable', 'failure_runs:processes', 'failure_runs:perm', 'yield_injections', 'successful_calls_after_a_failed_call', 'runs_with_repeated_files', 'runs_with_recordless_files', 'runs_with_dotdot_through_symlinked_directory']:
+	          'failures_propagated', 'caller_executor_still_usable', 'failure_runs:processes', 'failure_runs:perm', 'yield_injections', 'successful_calls_after_a_failed_call', 'runs_with_repeated_files', 'runs_with_recordless_files', 'runs_with_dotdot_through_symlinked_directory', 'relative_paths_after_chdir:processes', 'relative_paths_after_chdir:process-executor']:
 		if c.get(n, 0) == 0:
 			inconclusive.append(f'class never observed: {n}')
 	if c.get('pool_orders_observed', 0) and c.get('pool_orders_not_identity', 0) == 0:
